@@ -502,7 +502,8 @@ class _ReBenchDB(_ConcretePersistence):
 
     def _send_data_and_empty_cache(self):
         if self._cache:
-            if self._send_data(self._cache):
+            success, _ = self._send_data(self._cache)
+            if success:
                 self._cache = {}
 
     def convert_data_to_api_format(self, data):
